@@ -32,6 +32,7 @@ class WFQ(Scheduler):
         self.last_time: SimTime = 0.0
         """Clock time of most recent put and send operation"""
         self.store = PriorityStore(env)
+        self.arrival_seq = 0
 
         self.action = env.process(self.run(env))
 
@@ -85,4 +86,7 @@ class WFQ(Scheduler):
             f"finish_time {self.finish_times[class_id]}"
         )
 
-        self.store.put(PriorityItem((self.finish_times[class_id], now), packet))
+        self.arrival_seq += 1
+        self.store.put(
+            PriorityItem((self.finish_times[class_id], now, self.arrival_seq), packet)
+        )
